@@ -23,6 +23,11 @@ class ConclusionSelector(LogicalOperator, ABC):
     """
     concluded_before: Dict[bool, Dict[typing.FrozenSet[int], SeenSet]] = field(default_factory=lambda: {True: {}, False: {}},
                                                   init=False)
+    _recorded_for_this_row_: typing.List[typing.Tuple[SeenSet, Dict[int, HashedValue]]] = field(default_factory=list, init=False)
+    """
+    What update_conclusion recorded as concluded for the row that is being produced, so that it can be taken back when a
+    refinement above overrides the conclusions of this row.
+    """
 
     def _caching_enabled_(self) -> bool:
         # which conclusions apply to a row is a side effect of evaluating the operands (their _conclusion_ and
@@ -44,12 +49,29 @@ class ConclusionSelector(LogicalOperator, ABC):
         if not concluded_before.check(required_output):
             self._conclusion_.update(conclusions)
             concluded_before.add(required_output)
+            self._recorded_for_this_row_.append((concluded_before, required_output))
+
+    def _take_back_conclusions_of_this_row_(self) -> None:
+        """
+        The conclusions selected below this node for the row being produced are not drawn after all (a refinement above
+        fired for the row): they must not count as concluded before, or the next row they apply to is taken for a repeat
+        and gets no conclusion.
+        """
+        for concluded_before, required_output in self._recorded_for_this_row_:
+            concluded_before.seen[:] = [recorded for recorded in concluded_before.seen if recorded is not required_output]
+            if not required_output:
+                concluded_before.all_seen = False
+        self._recorded_for_this_row_.clear()
+        for operand in (self.left, self.right):
+            if isinstance(operand, ConclusionSelector):
+                operand._take_back_conclusions_of_this_row_()
 
     def _reset_only_my_cache_(self) -> None:
         super()._reset_only_my_cache_()
-        # both are filled while an evaluation runs: which conclusion combinations were produced so far, and the
+        # all are filled while an evaluation runs: which conclusion combinations were produced so far, and the
         # conclusions selected for the row being produced (left behind when the evaluation is abandoned at that row).
         self.concluded_before = {True: {}, False: {}}
+        self._recorded_for_this_row_ = []
         self._conclusion_.clear()
 
     def _copy_expression_(self, postfix: str) -> SymbolicExpression:
@@ -122,6 +144,9 @@ class ExceptIf(ConclusionSelector):
 
             right_yielded = False
             for right_value in self.right._evaluate__(left_value, yield_when_false=False):
+                if not right_yielded and isinstance(self.left, ConclusionSelector):
+                    # the refinement fires: what the refined branch selected for this row is not drawn.
+                    self.left._take_back_conclusions_of_this_row_()
                 right_yielded = True
                 self._conclusion_.update(self.right._conclusion_)
                 output = left_value.copy()
@@ -151,6 +176,7 @@ class Alternative(ElseIf, ConclusionSelector):
     def _evaluate__(self, sources: Optional[Dict[int, HashedValue]] = None, yield_when_false: bool = False) -> Iterable[Dict[int, HashedValue]]:
         outputs = super()._evaluate__(sources, yield_when_false=yield_when_false)
         for output in outputs:
+            self._recorded_for_this_row_.clear()
             left_is_true = not self.left._is_false_
             right_is_true = not self.right._is_false_
             if left_is_true:
@@ -170,6 +196,7 @@ class Next(EQLUnion, ConclusionSelector):
     def _evaluate__(self, sources: Optional[Dict[int, HashedValue]] = None, yield_when_false: bool = False) -> Iterable[Dict[int, HashedValue]]:
         outputs = super()._evaluate__(sources, yield_when_false=yield_when_false)
         for output in outputs:
+            self._recorded_for_this_row_.clear()
             if self.left_evaluated:
                 self.update_conclusion(output, self.left._conclusion_)
             if self.right_evaluated:
